@@ -49,8 +49,10 @@ CONSTANTS MaxPO,      \* positional-only parameters 0..MaxPO  (<= 2)
           MaxFree,    \* free variables 0..MaxFree (<= 3)
           Kinds,      \* subset of {"def","lambda","method","nested","loopdef","decorated"}
           Depth,      \* number of actions after the scenario is set up
+          DKSet,      \* subset of {"list", "obj", "mixed"}: kinds of default values
           PreSet,     \* subset of BOOLEAN: TRUE = g is made right after the definitions, FALSE = by a Convert step
-          Mode,       \* "bind": every binding;  "env": two bindings only (minimal call, a rejected call);
+          Mode,       \* "bind": every binding, on g;  "bindc": on g and the convert() wrapper;  "env": the minimal
+                      \* call only;
                       \* "sim": everything, for random behaviours (TLC -generate)
           MaxKw,      \* keyword arguments per call <= MaxKw
           Variant     \* "ok" (the code) | "bypos" (cells matched by position: a wrong design, for the self test)
@@ -60,7 +62,8 @@ PNames    == <<"c", "d">>
 KONames   == <<"k", "m">>
 FreeNames == <<"v0", "v1", "v2">>
 AllKinds  == {"def", "lambda", "method", "nested", "loopdef", "decorated"}
-ASSUME Kinds \subseteq AllKinds /\ MaxPO <= 2 /\ MaxP <= 2 /\ MaxKO <= 2 /\ MaxFree <= 3
+DKs       == {"list", "obj", "mixed"}
+ASSUME Kinds \subseteq AllKinds /\ DKSet \subseteq DKs /\ PreSet \subseteq BOOLEAN /\ MaxPO <= 2 /\ MaxP <= 2 /\ MaxKO <= 2 /\ MaxFree <= 3
 
 VARIABLES phase,   \* "sig" -> "env" -> "conv" -> "run"
           sc,      \* the scenario
@@ -97,7 +100,7 @@ Params(s) == [i \in 1..NPos(s) |-> PosParam(s, i)]
              \o (IF s.va THEN <<[name |-> "args", kind |-> "vararg", dflt |-> 0]>> ELSE <<>>)
              \o [i \in 1..s.nk |-> KwParam(s, i)]
              \o (IF s.vk THEN <<[name |-> "kw", kind |-> "varkw", dflt |-> 0]>> ELSE <<>>)
-SelfParam == [name |-> "self", kind |-> "pos", dflt |-> 0]
+NoSig == [npo |-> 0, np |-> 0, va |-> FALSE, nk |-> 0, vk |-> FALSE, nd |-> 0, kd |-> {}]
 
 (* ---- closure shapes ------------------------------------------------------- *)
 (* role "r": the body reads it; "w": the body reads it and can rebind it (nonlocal);            *)
@@ -109,12 +112,12 @@ FV == {v \in [role : {"r", "w", "d"}, asg : BOOLEAN, sh : BOOLEAN] : v.role = "d
 FreeShapes(kind) ==
   IF kind = "def" THEN {<<>>}                              \* module level: no enclosing function scope
   ELSE UNION {{fs \in [1..n -> FV] : kind = "lambda" => \A j \in 1..n : fs[j].role = "r"} : n \in 0..MaxFree}
-DKs == {"list", "obj", "mixed"}
 
-NoSig == [npo |-> 0, np |-> 0, va |-> FALSE, nk |-> 0, vk |-> FALSE, nd |-> 0, kd |-> {}]
 NoSc  == [sig |-> NoSig, dk |-> "list", kind |-> "def", free |-> <<>>, pre |-> FALSE]
 
 NI       == IF sc.kind = "loopdef" THEN 2 ELSE 1
+(* the instance parameter of a method precedes the "/" of the signature: positional-only if anything is *)
+SelfParam == [name |-> "self", kind |-> IF sc.sig.npo > 0 THEN "posonly" ELSE "pos", dflt |-> 0]
 NFree    == Len(sc.free)
 FreeIdx(n) == CHOOSE j \in 1..3 : FreeNames[j] = n
 Names    == {FreeNames[j] : j \in 1..NFree}
@@ -233,8 +236,9 @@ AllCalls    == {B(np, kws, dup) : np \in 0..(NPos(sc.sig) + 2),
                                   kws \in {k \in SUBSET KwUniverse : Cardinality(k) <= MaxKw},
                                   dup \in BOOLEAN} \ {B(np, {}, TRUE) : np \in 0..(NPos(sc.sig) + 2)}
 Accepted    == {b \in AllCalls : Bind(CallParams(F(1)), b.npos + SelfArgs, b.kws, b.dup).ok}
-EnvCalls    == {MinCall, B(NPos(sc.sig) + 2, ReqKw \cup {"zz"}, FALSE)}
-Calls       == IF Mode = "env" THEN EnvCalls ELSE AllCalls
+Calls       == IF Mode = "env" THEN {MinCall} ELSE AllCalls
+CallSides   == IF Mode = "bind" THEN {"g"} ELSE IF Mode = "bindc" THEN {"g", "c"} ELSE {"f", "g", "c"}
+               \* (bind modes: f itself is called by the harness's CPython validation of every behaviour)
 
 (* ---- state machine ----------------------------------------------------------------- *)
 (* compact encodings for the printed behaviours: the heap as one sequence of integers                       *)
@@ -263,7 +267,7 @@ Init == /\ phase = "sig" /\ sc = NoSc
         /\ gfn = [i \in Insts |-> NoFn] /\ hist = <<>>
 
 PickSig == /\ phase = "sig"
-           /\ \E s \in Sigs, d \in DKs :
+           /\ \E s \in Sigs, d \in DKSet :
                 /\ (NDef(s) = 0 => d = "list") /\ (NDef(s) = 1 => d # "mixed")
                 /\ sc' = [sc EXCEPT !.sig = s, !.dk = d]
            /\ phase' = "env"
@@ -351,7 +355,7 @@ CallAct == IF Mode = "sim"                       \* random behaviours: one third
            THEN \/ \E b \in CanonCalls : \E side \in {"f", "g", "c"}, i \in 1..NI : Call(side, i, b)   \* one third any
                 \/ \E b \in Accepted   : \E side \in {"f", "g", "c"}, i \in 1..NI : Call(side, i, b)
                 \/ \E b \in AllCalls   : \E side \in {"f", "g", "c"}, i \in 1..NI : Call(side, i, b)
-           ELSE \E b \in Calls : \E side \in {"f", "g", "c"}, i \in 1..NI : Call(side, i, b)
+           ELSE \E b \in Calls : \E side \in CallSides, i \in 1..NI : Call(side, i, b)
 Act == \/ \E i \in 1..NI : Convert(i)
        \/ CallAct
        \/ \E side \in Sides, i \in 1..NI, n \in Names, how \in {"call", "cell", "sib"} : Rebind(side, i, n, how)
@@ -374,7 +378,7 @@ Agree == \A i \in Converted :
            /\ \A n \in DOMAIN f.cells : n \notin DOMAIN g.cells => Role(n) = "d"
 (* every call has the same outcome (result, exception, effect on the heap) on f, g and the convert() wrapper *)
 LastAct == IF hist = <<>> THEN "" ELSE hist[Len(hist)][1]
-AgreeCalls == \A i \in Converted : LastAct # "call" => \A b \in (IF Mode = "bind" THEN AllCalls ELSE CanonCalls) :
+AgreeCalls == \A i \in Converted : LastAct # "call" => \A b \in (IF Mode \in {"bind", "bindc"} THEN AllCalls ELSE CanonCalls) :
                 /\ Outcome(F(i), b.npos, b.kws, b.dup, "", 0) = Outcome(gfn[i], b.npos, b.kws, b.dup, "", 0)
                 /\ Outcome(F(i), b.npos, b.kws, b.dup, "", 0) = Outcome(Fn("c", i), b.npos, b.kws, b.dup, "", 0)
 (* functions made from one code object keep their own cells and defaults *)
@@ -390,7 +394,7 @@ Key   == <<sc.sig.npo, sc.sig.np, B2I(sc.sig.va), sc.sig.nk, B2I(sc.sig.vk), sc.
            [j \in 1..NFree |-> <<sc.free[j].role, B2I(sc.free[j].asg), B2I(sc.free[j].sh)>>], B2I(sc.pre)>>
 ScOut == [npo |-> sc.sig.npo, np |-> sc.sig.np, va |-> sc.sig.va, nk |-> sc.sig.nk, vk |-> sc.sig.vk,
           nd |-> sc.sig.nd, kd |-> sc.sig.kd, dk |-> sc.dk, kind |-> sc.kind, free |-> sc.free, pre |-> sc.pre,
-          ni |-> NI, params |-> Params(sc.sig), gcells |-> DOMAIN Instantiate(F(1)).cells, post |-> Post,
+          ni |-> NI, params |-> Params(sc.sig), selfparam |-> SelfParam, gcells |-> DOMAIN Instantiate(F(1)).cells, post |-> Post,
           probes |-> Probes(cellv, objv, globv), mut |-> {s \in Slots : Mutable(ObjId(1, s))}]
 ReportSc == (phase = "run" /\ hist = <<>>) => PrintT(ToJson([k |-> Key, sc |-> ScOut]))
 Report   == (phase = "run" /\ Len(hist) = Depth) => PrintT(ToJson([k |-> Key, h |-> hist]))
